@@ -113,7 +113,7 @@ class Build:
         return h.hexdigest()[:16]
 
     def cflags(self, mode, alloc):
-        f = ["-I" + INC, "-I" + self.gen, "-I" + os.path.join(HARN, "common"), "-DH3_PREFIX=", "-DUBER_H3_VERIF"]
+        f = ["-I" + INC, "-I" + self.gen, "-I" + os.path.join(HARN, "common"), "-I" + LIB, "-DH3_PREFIX=", "-DUBER_H3_VERIF"]
         if mode == "ndebug":
             f.append("-DNDEBUG")
         if alloc:
